@@ -1898,21 +1898,24 @@ void MatrixColumnMinMax(matrix* m, size_t col, double* min, double* max)
 {
   if(m->row > 0 && col < m->col ){
     size_t i;
+    size_t n;
     double a;
-    (*min) = (*max) = m->data[0][col];
-    for(i = 1; i < m->row; i++){
+    (*min) = (*max) = MISSING;
+    n = 0;
+    for(i = 0; i < m->row; i++){
       a = m->data[i][col];
       if(FLOAT_EQ(a, MISSING, 1e-1)){
         continue;
       }
       else{
-        if(a < (*min)){
+        if(n == 0 || a < (*min)){
           (*min) = a;
         }
 
-        if(a > (*max)){
+        if(n == 0 || a > (*max)){
           (*max) = a;
         }
+        n++;
       }
     }
   }
